@@ -85,6 +85,14 @@ def action_faults(name, acts, n_nodes):
         for i in range(T):
             if acts[i] == 0 and 0 < i < T - 1:
                 yield ("merge_routes", i, acts[:i] + acts[i + 1:] + [0])
+    else:
+        # tours without a depot symbol: a node left out (shorter sequence) and a node visited again (longer one)
+        for i in range(T):
+            yield ("delete", i, acts[:i] + acts[i + 1:])
+        for i in range(T):
+            for j in (0, T // 2, T):
+                if j != i and j != i + 1:
+                    yield ("insert_revisit", (i, j), acts[:j] + [acts[i]] + acts[j:])
 
 
 def instance_faults(name, row, acts, rc):
@@ -281,6 +289,8 @@ def _call_checker(run, env, td, acts):
     a feasible solution of its own, e.g. another MTVRP variant) the checker is called on the batch of both,
     the tested solution first or second: the batch verdict must be the tested solution's verdict."""
     comp = getattr(run, "_companion", None)
+    if comp is not None and run.plan["cfg"]["env"] not in DEPOT_ENVS and len(acts) != len(comp["acts"]):
+        comp = None  # no depot symbol to pad with: a sequence of another length is judged alone
     try:
         if comp is None:
             env.check_solution_validity(td, torch.tensor([acts], dtype=torch.long))
